@@ -120,6 +120,35 @@ def count_of_duplicating_path(m, spec):
 
 
 @matcher
+def fractional_numeric_predicate(m, spec):
+    """A numeric predicate whose value is not an integer is truncated before it is compared with the position."""
+    hit = []
+
+    def frac(x):
+        if not isinstance(x, dict):
+            return False
+        if x.get("t") == "num":
+            v = x.get("v") or {}
+            return v.get("c") == "fin" and v.get("k", 0) > 0
+        if x.get("t") == "bin" and x.get("op") == "div":
+            return True
+        if x.get("t") == "bin" and x.get("op") in ("+", "-", "*"):
+            return frac(x.get("l")) or frac(x.get("r"))
+        return False
+
+    def visit(x):
+        for st in x.get("steps", []) or []:
+            for p in st.get("preds", []) or []:
+                if frac(p):
+                    hit.append(1)
+        for p in x.get("preds", []) or []:
+            if frac(p):
+                hit.append(1)
+    walk_ast(m["case"]["e"], visit)
+    return bool(hit)
+
+
+@matcher
 def round_returns_int(m, spec):
     """Evaluate of an expression whose top-level operation is round() hands out a Go int."""
     e = m["case"]["e"]
